@@ -43,6 +43,10 @@ def sq_ok(rep, true, scale, eps, squared_form=False):
     return abs(float(rep) ** 2 - float(true) ** 2) <= 5e4 * eps * scale
 
 
+def _with_sparse(dec):
+    return type(dec) is tuple and len(dec) == 2 and hasattr(dec[0], "factors")
+
+
 def run_case(case, ctx):
     try:
         _run_case(case, ctx)
@@ -205,23 +209,23 @@ def _run_case(case, ctx):
 
         def mcb(dec, error=None):
             # deep copies: the library keeps updating the arrays it hands out
-            if mopts.get("sparsity"):
-                snap_ = (decomp.snapshot(dec[0]), np.array(dec[1], copy=True))
+            # (a fractional sparsity that rounds to zero entries on a small tensor makes the library drop the sparse part altogether:
+            # the form of what is handed out is read off the object, not off the option)
+            if _with_sparse(dec):
+                snap_ = ("+sparse", decomp.snapshot(dec[0]), np.array(dec[1], copy=True))
             else:
-                snap_ = decomp.snapshot(dec)
+                snap_ = ("plain", decomp.snapshot(dec), 0.0)
             recs.append((snap_, None if error is None else float(error)))
         for k in ((1, 2, 4) if not mopts.get("linesearch") else (2, 8, 11)):     # accepted line-search jumps start at sweep 7
             del recs[:]
             out, errs = D.parafac(Xin.copy(), rank, n_iter_max=k, mask=mask.copy(), random_state=seed, tol=tiny, return_errors=True, callback=mcb, **mopts)
-            pairs = [(out, float(errs[-1]), "last of %d" % k)] if errs else []
+            out_ = ("+sparse", decomp.snapshot(out[0]), np.asarray(out[1])) if _with_sparse(out) else ("plain", decomp.snapshot(out), 0.0)
+            pairs = [(out_, float(errs[-1]), "last of %d" % k)] if errs else []
             pairs += [(d_, e_, "callback #%d of the %d-sweep run" % (j_, k)) for j_, (d_, e_) in enumerate(recs) if e_ is not None and j_ >= 1]
             for dec_, rep_, where in pairs:
-                if mopts.get("sparsity"):
-                    cp_, S_ = dec_
+                form_, (w_, f_), S_ = dec_
+                if form_ == "+sparse":
                     S_ = ref.hp(np.asarray(S_))
-                else:
-                    cp_, S_ = dec_, 0.0
-                w_, f_ = cp_ if isinstance(cp_, tuple) else decomp.snapshot(cp_)
                 M_, Mabs_, _ = ref.cp_dense(w_, f_)
                 imp = ref.hp(X) * mask + M_ * (1 - mask)
                 ctx.count("values/masked")
@@ -230,7 +234,7 @@ def _run_case(case, ctx):
                 if not np.isfinite(rep_) or abs(rep_ ** 2 - want_sq) > 5e4 * eps * scale_sq:
                     ctx.violation(key("masked-error"), "masked parafac (%s): reported %.12g but the iterate has error %.12g on the tensor imputed from it" % (where, rep_, float(np.sqrt(want_sq))), desc)
                     return
-                if mopts.get("sparsity") and np.any(S_[mask == 0] != 0):
+                if form_ == "+sparse" and np.any(S_[mask == 0] != 0):
                     ctx.violation(key("masked-sparse-component"), "masked sparse-plus-low-rank parafac (%s): the sparse component has non-zero entries in missing cells, where the imputed "
                                   "residual is exactly zero" % where, desc)
                     return
